@@ -322,7 +322,7 @@ def run(res):
   res.extra["t_generate_s"] = round(time.time() - t0, 1)
 
   common.build_cfg()
-  n_workers = 8 if thorough else 4
+  n_workers = int(os.environ.get("VERIF_C10_WORKERS", 8 if thorough else 4))
   wait_e2e = run_workers(jobs, n_workers)          # runs while Coq builds and the pure legs are compared
 
   # ---- Coq theorems -------------------------------------------------------------------------
@@ -337,7 +337,7 @@ def run(res):
   if common.REPO not in sys.path:
     sys.path.insert(0, common.REPO)
   hist_sizes, hist_out = {}, {"all-created": 0, "inconsistent-order": 0, "duplicate-base": 0}
-  n_viol_pure = 0
+  pure_viol = []
   impl_t = []
   for name, H in tables:
     cm, cf, cmsg = g.cpython_table(H)
@@ -352,10 +352,14 @@ def run(res):
     res.count(("table", tuple(map(tuple, H))) if nontrivial else None)
     # direct oracle at the merge level: the real MROMerge per class vs the interpreter, when no base is repeated
     if not has_dup(H) and (g.enc_table(cm, cf) != g.enc_table(pm, pf)):
-      n_viol_pure += 1
-      if n_viol_pure <= 3:
-        res.violation("merge-differs-from-cpython", "mro.MROMerge applied as compute_mro does differs from type().__mro__",
-                      {"kind": "table", "H": H, "cpython": g.enc_table(cm, cf), "pytype_mromerge": g.enc_table(pm, pf)})
+      pure_viol.append((len(H), sum(map(len, H)), H, g.enc_table(cm, cf), g.enc_table(pm, pf)))
+  if pure_viol:
+    pure_viol.sort()
+    _, _, H, a, b = pure_viol[0]
+    res.violation("merge-differs-from-cpython",
+                  "mro.MROMerge applied as compute_mro applies it differs from type().__mro__ on %d tables; smallest H=%s: "
+                  "cpython=%s pytype=%s" % (len(pure_viol), H, a, b),
+                  {"kind": "table", "H": H, "cpython": a, "pytype_mromerge": b})
   seen = set()
   mcases = []
   for seqs, sing in merges:
@@ -472,8 +476,9 @@ def run(res):
         what = next((w for f, w in judge(job, run_inproc(job)) if f == fp), what)
       except Exception as e:  # shrinking is best effort
         what += " (shrink failed: %s)" % e
-    res.violation(fp, "%s [%d programs; smallest: mode=%s H=%s]" % (what, len(lst), job["mode"], job["H"]),
-                  {"kind": "e2e", "mode": job["mode"], "H": job["H"], "attrs": job["attrs"], "style": job["style"]})
+    if fp in res.known or len(res.violations) < 3:     # at most 3 reported violations
+      res.violation(fp, "%s [%d programs; smallest: mode=%s H=%s]" % (what, len(lst), job["mode"], job["H"]),
+                    {"kind": "e2e", "mode": job["mode"], "H": job["H"], "attrs": job["attrs"], "style": job["style"]})
   # observed compute_mro tables vs the model, for both values of dupcheck
   res.obligation("e2e-observation:compute_mro-recorded-for-every-class", n_unobserved == 0,
                  "%d programs without a recorded compute_mro call for some class" % n_unobserved)
